@@ -183,12 +183,13 @@ def run(ctx):
         k = (f["method"], f["kind"])
         obs_hist["%s:%s" % k] = obs_hist.get("%s:%s" % k, 0) + 1
         kf = None
+        d = describe(c)
         for e in known:
             if (e.get("status") == "open" and e.get("methods") and f["method"] in e["methods"] and e.get("kind") == f["kind"]
                     and e.get("detail_contains", "") in f["detail"]
-                    and (not e.get("detail_any") or any(x in f["detail"] for x in e["detail_any"]))):
+                    and (not e.get("detail_any") or any(x in f["detail"] for x in e["detail_any"]))
+                    and (not e.get("paths") or d.get("path") in e["paths"])):      # "paths": exact receivers only
                 kf = e
-        d = describe(c)
         if kf:
             if kf["key"] not in known_flag_reported:
                 known_flag_reported.add(kf["key"])
@@ -222,7 +223,7 @@ def run(ctx):
         cases_matching_only_the_original_LineTo_model=orig_agree,
         observation=dict(method_calls=obs_calls, findings=obs_hist, documented_new_path_methods=newpath,
                          foreign_findings=[v for v in foreign_notes.values()],
-                         rule="each call = one public method applied under recover with a 5 s watchdog; receiver and argument Data()[:cap] compared bit-for-bit before/after"),
+                         rule="each call = one public method applied under recover with a 30 s watchdog; receiver and argument Data()[:cap] compared bit-for-bit before/after"),
         theorems=pr["theorems"], assumptions_per_theorem=pr["assumptions"],
         samples=[dict(family=c["fam"], calls=c["desc"].get("calls", c["desc"].get("shape", c["desc"].get("svg"))), path=c["desc"].get("path")) for c in cases[1:4]],
     )
